@@ -87,7 +87,7 @@ def run(pid, tier_, replay=None):
         rt_fut = pool.submit(bp_repotests.run)
 
     # 2. behaviours: TLC simulation of BPSim + seeded generator + fixed regression scenarios
-    nsim_cfg, nsim = (4, 60) if quick else (16, 400)
+    nsim_cfg, nsim = (4, 100) if quick else (16, 400)
     nrand = 150 if quick else 3000
     sim_futs = [pool.submit(bp.simulate, cst, nsim, 120, seed * 131 + i) for i, cst in
                 enumerate(bp.sim_plans(pid, rng, nsim_cfg))]
